@@ -1,6 +1,6 @@
 CONSTANTS
   Ids = {1, 2}
-  Times = {1, 2, 3}
+  Times = {1, 2}
   LastDue = 1
   MaxTasks = 4
   WorkerCounts = {1, 2}
